@@ -16,7 +16,7 @@ func init() {
 	register(&Rule{ID: "E-KINDS", Props: []string{"C14", "C18", "C20", "C05"}, Floor: 1,
 		Doc: "every type switch of the evaluator that names at least three of the 14 supported numeric kinds names all of them (decimal128.Decimal, json.Number, float32/64, int8..int64, int, uint8..uint64, uint); where every numeric clause of a switch is a constant return, all of them return the same constants",
 		Run: ruleEKinds})
-	register(&Rule{ID: "E-TODECIMAL-TABLE", Props: []string{"C05", "C14"}, Floor: 4,
+	register(&Rule{ID: "E-TODECIMAL-TABLE", Props: []string{"C05", "C14", "C20"}, Floor: 4,
 		Doc: "toDecimal converts each numeric kind with the value-preserving constructor of that kind and nothing else: Decimal unchanged, json.Number through decimal128.Parse of its full text, floats through FromFloat32/64, signed integers through FromInt32/64, unsigned through FromUint32/64",
 		Run: ruleEToDecimalTable})
 	register(&Rule{ID: "E-FLOAT-ORIGIN", Props: []string{"C05", "C14", "C02", "C13", "C20"}, Floor: 3,
